@@ -824,6 +824,35 @@ func c18TCPOps(c *h.Ctx) error {
 		c.Case(fmt.Sprintf("tcp-opcode-%d", op))
 		c.Exec(1)
 	}
+	// Frame sizes: the 16-bit length prefix covers 1..65535; a name query with q questions is 12+38q octets, so
+	// q = 861 / 862 straddle 2^15 and q = 1724 is the largest frame below 2^16. Each request on the one connection
+	// must be answered, under its own transaction id, and the small request after the large ones shows that the
+	// stream is still framed (seed C18-12: the length read as a signed 16-bit number).
+	for i, q := range []int{1, 861, 862, 1724, 1} {
+		id := uint16(0x2200 + i)
+		p := &nbtns.NBTNSPacket{Header: nbtns.NBTNSHeader{TransactionID: id, Flags: 0, Questions: uint16(q)}}
+		for k := 0; k < q; k++ {
+			p.Questions = append(p.Questions, nbtns.NBTNSQuestion{Name: &nbtns.NetBIOSName{Name: "NOSUCHHOST"}, Type: 0x20, Class: 1})
+		}
+		pkt, err := p.Marshal()
+		if err != nil || len(pkt) > 0xFFFF {
+			return fmt.Errorf("frame-size request with %d questions: %d octets, %v", q, len(pkt), err)
+		}
+		cn.SetDeadline(time.Now().Add(3 * time.Second))
+		cn.Write(append([]byte{byte(len(pkt) >> 8), byte(len(pkt))}, pkt...))
+		lb := make([]byte, 2)
+		c.Case(fmt.Sprintf("tcp-frame-%d", len(pkt)))
+		c.Exec(1)
+		if _, err := io.ReadFull(cn, lb); err != nil {
+			c.Fail("nbtns.TCPServer.handleConnection", "frame-size:no-response", fmt.Sprintf("request of %d octets (%d questions), the %d-th on its connection: %v", len(pkt), q, len(ops)+i+1, err), nil)
+			break
+		}
+		b := make([]byte, binary.BigEndian.Uint16(lb))
+		if _, err := io.ReadFull(cn, b); err != nil || len(b) < 2 || binary.BigEndian.Uint16(b[:2]) != id {
+			c.Fail("nbtns.TCPServer.handleConnection", "frame-size:reply-txid", fmt.Sprintf("request of %d octets with id %04x answered with %x (%v)", len(pkt), id, b[:min(2, len(b))], err), nil)
+			break
+		}
+	}
 	cn.Close()
 	lg.release(true)
 	stopPromptly(c, "nbtns.TCPServer.Stop", "netbios/nbtns.", s.Stop, lg)
